@@ -3,10 +3,16 @@ import TR.Model.Common
 # Reconnect (C16) — `crates/tower-resilience-reconnect/src/service.rs`
 
 `ReconnectService::call` calls the inner service at once and returns a `ReconnectFuture` whose
-`poll` is a loop over `Phase::{Calling, Sleeping, Failed}`. One `poll` of one call future is one
+`poll` is a loop over `Phase::{Calling, Sleeping, Readying, Failed}`. One `poll` of one call future is one
 model step; inside it the loop is the small-step relation `trans` (calling → done | sleeping,
-sleeping → calling | done) iterated with fuel `2·|plan| + 3`, which `TR/Lemmas/Reconnect.lean`
-proves sufficient (`loop_complete`).
+sleeping → readying | done, readying → calling | done) iterated with fuel `3·|plan| + 4`, which
+`TR/Lemmas/Reconnect.lean` proves sufficient (`loop_complete`).
+
+`Readying` (service.rs:210-220): after the back-off the future polls the readiness of its own clone of the inner
+service before it calls it again: pending → the future is pending; a readiness ERROR → the request ends with
+`ServiceError(readiness error)` — the error of the last call (`last_error`) is dropped, the published state stays as it
+is. The inner service's readiness is scripted (`Op.inner`): a recovery time after every call during which it is
+pending, and a list of answers (ready / error) consumed by successive `poll_ready` calls outside the recovery.
 
 Time is whole milliseconds (tokio timer resolution), policy delays are nanoseconds; a sleep of
 `d` ns ends at the first millisecond tick `≥ now + d`.
@@ -84,6 +90,20 @@ inductive RRes
   | connFailed (kind k : Nat)
   | noRetry (kind k : Nat)
   | maxAttempts (attempts kind k : Nat)
+  | readyErr                      -- `ServiceError` wrapping the inner service's READINESS error (after a back-off)
+  | notReady                      -- the caller found the service not ready (pending or error) and made no call
+deriving DecidableEq, Repr, Inhabited
+
+/-- one scripted answer of the inner service's `poll_ready` -/
+inductive Rdy
+  | ready
+  | error
+deriving DecidableEq, Repr, Inhabited
+
+inductive RdyAns
+  | ready
+  | pending
+  | error
 deriving DecidableEq, Repr, Inhabited
 
 inductive REv
@@ -93,6 +113,7 @@ inductive REv
   | result (c : Nat) (r : RRes)
   | probe (x : Conn)
   | bad
+  | readyErr                      -- the inner service answered a readiness poll with an error
 deriving DecidableEq, Repr, Inhabited
 
 /-- ghost: the sleep before a retry -/
@@ -113,6 +134,7 @@ deriving DecidableEq, Repr, Inhabited
 inductive Phase
   | calling (k doneAt : Nat) (out : Out)
   | sleeping (wake : Nat)
+  | readying (wake : Nat)                 -- back-off over (it ended at `wake`); waiting for the inner service's readiness
   | done
 deriving DecidableEq, Repr, Inhabited
 
@@ -132,8 +154,13 @@ structure Shared where
   serial : Nat := 0
   conn : Conn := .disconnected            -- ReconnectState::new()
   writer : Option Nat := none             -- ghost
+  attempts : Nat := 0                     -- ReconnectState::attempts (state.rs:28): written only by `increment_attempts` / `mark_connected`
+  lastConn : Nat := 0                     -- ReconnectState::last_connected (state.rs:31), see `mark`
   log : List REv := []                    -- ghost: every event so far
   obs : List Nat := []                    -- observed choices attached to the current operation
+  script : List Rdy := []                 -- inner service: scripted readiness answers not yet consumed (then: ready)
+  recover : Nat := 0                      -- inner service: after a call, `poll_ready` is pending for this long (ms)
+  busyUntil : Nat := 0                    -- inner service: end of the current recovery
 deriving Repr, Inhabited
 
 structure State where
@@ -147,22 +174,43 @@ inductive Op
   | drop (c : Nat)
   | adv (ms : Nat)
   | probe
+  | incr                                  -- the application calls `ReconnectState::increment_attempts()` on the shared handle
+  | inner (script : List Rdy) (recover : Nat)   -- the wrapped service's readiness behaviour from now on
 
 def ceilMs (ns : Nat) : Nat := (ns + 999999) / 1000000
 
-def mark (c : Nat) (x : Conn) (w : Shared) : Shared := { w with conn := x, writer := some c }
+/-- `mark_connected` / `mark_disconnected` / `mark_reconnecting` (state.rs:72-88). `mark_connected` also resets the
+attempts counter and stores `Instant::now().elapsed()` in `last_connected`: the time that passes between two readings
+of the clock inside one (atomic) step, `now - now`. -/
+def mark (c : Nat) (x : Conn) (w : Shared) : Shared :=
+  match x with
+  | .connected => { w with conn := .connected, writer := some c, attempts := 0, lastConn := w.now - w.now }
+  | x => { w with conn := x, writer := some c }
 def emit (evs : List REv) (w : Shared) : Shared := { w with log := w.log ++ evs }
 
 def finish (c : Nat) (r : RRes) (st : Caller) (w : Shared) : Caller × Shared :=
   ({ st with phase := .done, result := some r }, emit [.result c r] w)
 
-/-- `inner.call(request.clone())`: pops the next scripted step (default: ok at once) -/
+/-- `inner.poll_ready()`: pending while the service recovers from the previous call (no scripted answer is consumed),
+else the next scripted answer (`ready` when the script is used up) -/
+def readyAns (w : Shared) : RdyAns :=
+  if w.now < w.busyUntil then .pending
+  else match w.script with
+    | .error :: _ => .error
+    | _ => .ready
+
+/-- a readiness poll outside the recovery consumed one scripted answer -/
+def popScript (w : Shared) : Shared := { w with script := w.script.tail }
+
+/-- `inner.call(request.clone())`: pops the next scripted step (default: ok at once); the inner service starts
+recovering -/
 def startCall (c : Nat) (st : Caller) (w : Shared) : Caller × Shared :=
   let stp := st.plan.headD { lat := 0, out := .ok }
   ({ st with phase := .calling w.serial (w.now + stp.lat) stp.out, plan := st.plan.tail,
              calls := { k := w.serial, t := w.now, step := stp, pre := st.pend } :: st.calls,
              pend := none },
-   emit [.call c w.serial] { w with serial := w.serial + 1 })
+   emit [.call c w.serial] { w with serial := w.serial + 1,
+                                    busyUntil := if 0 < w.recover then w.now + w.recover else w.busyUntil })
 
 /-- `Poll::Ready(Err(error))` in the Calling phase (service.rs:130-195) -/
 def onError (cfg : Cfg) (c : Nat) (st : Caller) (w : Shared) (kd k : Nat) : Caller × Shared :=
@@ -191,16 +239,27 @@ def transCalling (cfg : Cfg) (c : Nat) (st : Caller) (w : Shared) (k doneAt : Na
 def transSleeping (cfg : Cfg) (c : Nat) (st : Caller) (w : Shared) (wake : Nat) :
     Option (Caller × Shared) :=
   if w.now < wake then none
-  else if cfg.retry = true then some (startCall c st w)
+  else if cfg.retry = true then some ({ st with phase := .readying wake }, w)
   else match st.lastErr with
     | some (kd, k) => some (finish c (.noRetry kd k) st (mark c .connected w))
     | none => none
+
+/-- `Phase::Readying` (service.rs:210-220): `this.inner.poll_ready(cx)`. The first test never fires in a reachable
+state (the phase is entered at `wake` or later and time does not go back: `TR.Props.C16.readying_is_after_the_backoff`);
+it is there so that the per-request invariant needs no clock. -/
+def transReadying (c : Nat) (st : Caller) (w : Shared) (wake : Nat) : Option (Caller × Shared) :=
+  if w.now < wake then none
+  else match readyAns w with
+    | .pending => none
+    | .ready => some (startCall c st (popScript w))
+    | .error => some (finish c .readyErr st (emit [.readyErr] (popScript w)))
 
 /-- one turn of the `loop` in `ReconnectFuture::poll`; `none` = `Poll::Pending` or completed -/
 def trans (cfg : Cfg) (c : Nat) (st : Caller) (w : Shared) : Option (Caller × Shared) :=
   match st.phase with
   | .calling k doneAt out => transCalling cfg c st w k doneAt out
   | .sleeping wake => transSleeping cfg c st w wake
+  | .readying wake => transReadying c st w wake
   | .done => none
 
 def loop (cfg : Cfg) (c : Nat) : Nat → Caller → Shared → Caller × Shared
@@ -210,7 +269,7 @@ def loop (cfg : Cfg) (c : Nat) : Nat → Caller → Shared → Caller × Shared
       | none => (st, w)
       | some (st', w') => loop cfg c n st' w'
 
-def fuel (st : Caller) : Nat := 2 * st.plan.length + 3
+def fuel (st : Caller) : Nat := 3 * st.plan.length + 4
 
 def pollCaller (cfg : Cfg) (c : Nat) (st : Caller) (w : Shared) : Caller × Shared :=
   loop cfg c (fuel st) st w
@@ -222,16 +281,29 @@ def dropCaller (c : Nat) (st : Caller) (w : Shared) : Caller × Shared :=
 
 def newCaller (plan : List Step) : Caller := { phase := .done, plan := plan }
 
+/-- a request that was refused before a call future existed -/
+def refused (plan : List Step) : Caller := { phase := .done, plan := plan, result := some .notReady }
+
 def stepS (cfg : Cfg) (s : State) (op : Op) : State :=
   match op with
   | .adv ms => { s with sh := { s.sh with now := s.sh.now + ms } }
   | .probe => { s with sh := emit [.probe s.sh.conn] s.sh }
+  | .incr => { s with sh := { s.sh with attempts := s.sh.attempts + 1 } }
+  | .inner script recover => { s with sh := { s.sh with script := script, recover := recover } }
   | .arrive c plan =>
       match lookup s.callers c with
       | some _ => s
       | none =>
-          let r := startCall c (newCaller plan) s.sh
-          { sh := r.2, callers := (c, r.1) :: s.callers }
+          -- the caller polls the service ready (`ReconnectService::poll_ready` = the inner service's) and calls it
+          -- only if it is; otherwise there is no call future
+          match readyAns s.sh with
+          | .ready =>
+              let r := startCall c (newCaller plan) (popScript s.sh)
+              { sh := r.2, callers := (c, r.1) :: s.callers }
+          | .pending =>
+              { sh := emit [.result c .notReady] s.sh, callers := (c, refused plan) :: s.callers }
+          | .error =>
+              { sh := emit [.readyErr, .result c .notReady] (popScript s.sh), callers := (c, refused plan) :: s.callers }
   | .poll c obs =>
       match lookup s.callers c with
       | some st =>
@@ -283,6 +355,8 @@ inductive COp
   | drop (c : Nat)
   | adv (ms : Nat)
   | probe
+  | incr
+  | inner (script : List Rdy) (recover : Nat)
 
 def COp.head : COp → Op
   | .arrive c plan => .arrive c (plan.map CStep.head)
@@ -290,11 +364,111 @@ def COp.head : COp → Op
   | .drop c => .drop c
   | .adv ms => .adv ms
   | .probe => .probe
+  | .incr => .incr
+  | .inner sc r => .inner sc r
 
 def runC (cfg : Cfg) (ops : List COp) : State := run cfg (ops.map COp.head)
 
 /-- what the predicate-based classification of an error with causes IS: the predicate applied to the error -/
 def classify (cfg : Cfg) (kind : Nat) (_causes : List Nat) : Bool := cfg.reconn kind
+
+/-! ## what the accessors report
+
+`ReconnectState::attempts()` / `increment_attempts()` / `time_since_connected()` (state.rs:57-99), read through
+`ReconnectLayer::state()`, `ReconnectService::state()` or a clone of the `ReconnectState`; `ReconnectService::config()` and
+the accessors of `ReconnectConfig` (config.rs:81-105). -/
+
+/-- `ReconnectState::attempts()`. The service never increments the counter (it counts attempts per request, in the call
+future); only the application's own `increment_attempts()` does, and `mark_connected` resets it. -/
+def attemptsOf (s : State) : Nat := s.sh.attempts
+
+/-- `ReconnectState::time_since_connected()` (state.rs:91-99): `None` while `last_connected` is 0; else
+`Instant::now().elapsed()` — once more the time between two readings of the clock within one step — minus
+`last_connected`, saturating. -/
+def timeSinceConnected (w : Shared) : Option Nat :=
+  if w.lastConn = 0 then none else some ((w.now - w.now) - w.lastConn)
+
+/-- `config().policy().delay_for_attempt(a)` asked directly: `none` for policy `None`, else the delay in ns
+(a randomised policy: the observed value, if the envelope allows it) -/
+def delayProbe (cfg : Cfg) (a : Nat) (obs : List Nat) : String :=
+  match nextDelay cfg.policy a obs with
+  | .noPolicy => "none"
+  | .bad => "choice-not-allowed"
+  | .delay d _ => toString d
+
+/-! ## `connection_errors_only()` (config.rs:332-343)
+
+The shortcut installs a predicate on the error's `Display` text: lower-cased, it must contain one of five phrases.
+(The doc comment speaks of `ErrorKind`s; the code matches text only — an `io::Error::new(BrokenPipe, "test")` is NOT
+accepted.) Texts are ASCII here. -/
+
+def lowerAscii (c : Char) : Char := if 'A' ≤ c ∧ c ≤ 'Z' then Char.ofNat (c.toNat + 32) else c
+
+/-- `pat` occurs in `l` as a contiguous substring -/
+def hasSub (pat : List Char) : List Char → Bool
+  | [] => pat.isEmpty
+  | b :: bs => pat.isPrefixOf (b :: bs) || hasSub pat bs
+
+def connPhrases : List String :=
+  ["broken pipe", "connection reset", "connection aborted", "not connected", "connection refused"]
+
+/-- the closure of `connection_errors_only()` applied to an error whose `Display` text is `msg` -/
+def connectionErrorsOnly (msg : String) : Bool :=
+  connPhrases.any fun p => hasSub p.toList (msg.toList.map lowerAscii)
+
+/-- `Display` text of the scripted error kinds beyond `ierr<kind>:<serial>` (the harness's `CErr`; kinds 0-3 and
+everything not listed have no text). The prefix `ierr<kind>:<serial> ` contains no letter of any phrase start followed
+by a phrase, and no phrase contains a digit or a colon: the text decides. -/
+def kindText : Nat → String
+  | 4 => "Broken pipe (os error 32)"
+  | 5 => "Connection reset by peer (os error 104)"
+  | 6 => "connection aborted"
+  | 7 => "Transport endpoint is not connected (os error 107)"
+  | 8 => "Connection refused (os error 111)"
+  | 9 => "connection timed out"
+  | 10 => "disconnected"
+  | 11 => "BROKEN PIPE"
+  | 12 => "connection  reset"
+  | 13 => "host unreachable"
+  | 14 => "upstream said: Connection Refused"
+  | 15 => "brokenpipe"
+  | _ => ""
+
+/-- which scripted error kinds `connection_errors_only()` classifies as connection failures -/
+def connAccepts (kd : Nat) : Bool := connectionErrorsOnly (kindText kd)
+
+/-! ## several layer values
+
+Services made by ONE `ReconnectLayer` value (or by a clone of it: `#[derive(Clone)]` clones the `ReconnectState`
+handle, an `Arc`) share one connection state: `ReconnectLayer::state()` is documented as the place to monitor it, and
+all of the above models that one state. A SECOND layer value made from the same configuration
+(`ReconnectLayer::new(config.clone())`) has its own `ReconnectState::new()`: instance `j` below. The instances share
+only the world: the clock and the numbering of inner calls. -/
+
+structure Multi where
+  now : Nat := 0
+  serial : Nat := 0
+  insts : List (Nat × State) := []
+deriving Repr, Inhabited
+
+/-- an instance sees the world's clock and call counter -/
+def sync (now serial : Nat) (s : State) : State := { s with sh := { s.sh with now := now, serial := serial } }
+
+/-- the instance of layer value `j` (a layer value nobody used yet is in its initial state) -/
+def instOf (m : Multi) (j : Nat) : State := sync m.now m.serial ((lookup m.insts j).getD init)
+
+/-- operation `op` on the instance of layer value `j` (an `adv` on any instance advances the one clock) -/
+def stepM (cfg : Cfg) (m : Multi) (jop : Nat × Op) : Multi :=
+  let s' := stepS cfg (instOf m jop.1) jop.2
+  { now := s'.sh.now, serial := s'.sh.serial, insts := (jop.1, s') :: m.insts }
+
+def runM (cfg : Cfg) (ops : List (Nat × Op)) : Multi := ops.foldl (stepM cfg) {}
+
+/-- the layer value through which request `c` was made (0 if unknown) -/
+def ownerOf (insts : List (Nat × State)) (c : Nat) : Nat :=
+  match insts with
+  | [] => 0
+  | (j, s) :: tl => if (lookup s.callers c).isSome then j else ownerOf tl c
 
 /-! ## line protocol -/
 
@@ -330,6 +504,8 @@ def RRes.toRes : RRes → Res
   | .connFailed kd k => .custom s!"err:conn_failed:inner{kd}:{k}"
   | .noRetry kd k => .custom s!"err:no_retry:inner{kd}:{k}"
   | .maxAttempts n kd k => .custom s!"err:max_attempts:{n}:inner{kd}:{k}"
+  | .readyErr => .custom "err:service:inner9:0"     -- the scripted readiness error is `IErr {kind: 9, v: 0}`
+  | .notReady => .notReady
 
 def REv.toEv : REv → Ev
   | .call c k => .innerCall c k
@@ -338,6 +514,7 @@ def REv.toEv : REv → Ev
   | .result c r => .result c r.toRes
   | .probe x => .probe s!"state = {x.render}"
   | .bad => .raw "choice-not-allowed"
+  | .readyErr => .raw "ready_err"
 
 def parseObs (ws : List String) : List Nat :=
   ws.filterMap fun w =>
@@ -350,6 +527,7 @@ def parseOp (ws : List String) : Option COp :=
   | "drop" :: c :: _ => some (.drop (c.toNat?.getD 0))
   | "adv" :: ms :: _ => some (.adv (ms.toNat?.getD 0))
   | "probe" :: "state" :: _ => some .probe
+  | "manual" :: "incr" :: _ => some .incr
   | _ => none
 
 def msNs (ms : Nat) : Nat := ms * 1000000
@@ -358,37 +536,127 @@ def parseTable (s : String) : List Nat :=
   let l := (s.splitOn ",").filterMap fun x => x.toNat?
   if l.isEmpty then [1] else l
 
+/-- `ReconnectConfig::default()` (config.rs:108-121) = `ReconnectConfigBuilder::default()` (config.rs:381-394):
+exponential 100 ms .. 5 s (`ReconnectPolicy::default()`), unlimited attempts, retry, no predicate -/
+def defaultCfg : Cfg :=
+  { maxAttempts := none, policy := .exp (msNs 100) (msNs 5000), retry := true, reconn := fun _ => true }
+
+/-- the header says the layer is built from the default configuration, untouched -/
+def isDefaultCtor (kv : Kv) : Bool :=
+  kv.str "policy" "exp" = "default" || ["default", "with_defaults", "layerdefault"].contains (kv.str "ctor" "builder")
+
 def parseCfg (kv : Kv) : Cfg :=
+  -- `unit=us`: the header's durations are microseconds (default: milliseconds)
+  let u : Nat → Nat := fun n => if kv.str "unit" "ms" = "us" then n * 1000 else msNs n
   let policy : Policy :=
     match kv.str "policy" "exp" with
     | "none" => .none
-    | "fixed" => .fixed (msNs (kv.nat "d" 10))
-    | "jitter" => .jitter (msNs (kv.nat "init" 100)) (msNs (kv.nat "cap" 5000)) (kv.nat "rf" 50)
+    | "fixed" => .fixed (u (kv.nat "d" 10))
+    | "jitter" =>
+        -- `jv=1`: the real `ReconnectPolicy::exponential_random` with randomization factor 0, whose delay is not
+        -- observable from outside and is the exponential value itself
+        if kv.nat "jv" 0 = 1 then .exp (u (kv.nat "init" 100)) (u (kv.nat "cap" 5000))
+        else .jitter (u (kv.nat "init" 100)) (u (kv.nat "cap" 5000)) (kv.nat "rf" 50)
     | "custom" =>
         let t := parseTable (kv.str "tbl" "1")
-        .custom fun a => msNs (t.getD (a % t.length) 1)
-    | _ => .exp (msNs (kv.nat "init" 100)) (msNs (kv.nat "cap" 5000))
+        .custom fun a => u (t.getD (a % t.length) 1)
+    | _ => .exp (u (kv.nat "init" 100)) (u (kv.nat "cap" 5000))
   let reconn : Nat → Bool :=
     match kv.get "pred" with
     | none => fun _ => true
+    | some "conn" => connAccepts          -- `.connection_errors_only()`
     | some p =>
         let kinds := p.toList.filterMap fun ch => (String.singleton ch).toNat?
         fun kd => kinds.contains kd
-  if kv.str "policy" "exp" = "default" then
-    -- `ReconnectConfig::default()`: exponential 100 ms .. 5 s, unlimited attempts, retry, no predicate
-    { maxAttempts := none, policy := .exp (msNs 100) (msNs 5000), retry := true, reconn := fun _ => true }
+  if isDefaultCtor kv then defaultCfg
   else
   { maxAttempts := kv.optNat "max", policy := policy, retry := kv.nat "retry" 1 != 0, reconn := reconn }
 
-def machine : Machine where
-  σ := Cfg × State
-  init kv := (parseCfg kv, init)
-  step := fun (cfg, s) ws =>
+/-- the variant of `ReconnectPolicy` that `config().policy()` shows (`custom` and the observed `jitter` are
+`ReconnectPolicy::Custom` in the harness) -/
+def variantOf (kv : Kv) : String :=
+  if isDefaultCtor kv then "exp" else
+  match kv.str "policy" "exp" with
+  | "none" => "none"
+  | "fixed" => "fixed"
+  | "jitter" => if kv.nat "jv" 0 = 1 then "random" else "custom"
+  | "custom" => "custom"
+  | _ => "exp"
+
+def laySuffix (j : Nat) : String := if j = 0 then "" else s!"@{j}"
+
+/-- `strict`: the harness's strict inner service (header `rdy=` / `rec=`) logs every call with the request's tag and
+whether the instance had been polled ready: always, here — by the caller before the first call, by `Readying` before a
+retry -/
+def evOf (strict : Bool) (j : Nat) : REv → Ev
+  | .probe x => .probe s!"state{laySuffix j} = {x.render}"
+  | .call c k => if strict then .innerCallX c k c true else .innerCall c k
+  | e => e.toEv
+
+/-- `rdy=rre…`: the scripted answers of the inner service's `poll_ready` ('e' error, anything else ready) -/
+def parseScript (s : String) : List Rdy := s.toList.map fun ch => if ch = 'e' then .error else .ready
+
+structure MSt where
+  cfg : Cfg
+  variant : String
+  script : List Rdy := []   -- header `rdy=` / `rec=`: the readiness behaviour of the inner service of every layer value
+  recover : Nat := 0
+  strict : Bool := false    -- either was given
+  m : Multi := {}
+  gone : Bool := false      -- `manual dropsvc`: no service handle is left to ask for its `config()`
+
+/-- the inner service wrapped by a layer value nobody used yet starts with the header's readiness behaviour -/
+def touch (x : MSt) (j : Nat) : Multi :=
+  if (lookup x.m.insts j).isNone && (!x.script.isEmpty || x.recover != 0) then
+    stepM x.cfg x.m (j, .inner x.script x.recover)
+  else x.m
+
+def stepOn (x : MSt) (j : Nat) (op : Op) : MSt × List Ev :=
+  let m0 := touch x j
+  let before := (instOf m0 j).sh.log.length
+  let m' := stepM x.cfg m0 (j, op)
+  ({ x with m := m' }, ((instOf m' j).sh.log.drop before).map (evOf x.strict j))
+
+def optNatStr : Option Nat → String
+  | none => "none"
+  | some n => toString n
+
+def machineStep (x : MSt) (ws : List String) : MSt × List Ev :=
+  let kv := parseKv ws
+  let j := kv.nat "lay" 0
+  match ws with
+  | "manual" :: "dropsvc" :: _ => ({ x with gone := true }, [])
+  | "manual" :: "incr" :: _ =>
+      let x' := (stepOn x j .incr).1
+      (x', [.probe s!"incr{laySuffix j} = {attemptsOf (instOf x'.m j)}"])
+  | "probe" :: "attempts" :: _ => (x, [.probe s!"attempts{laySuffix j} = {attemptsOf (instOf x.m j)}"])
+  | "probe" :: "since" :: _ =>
+      (x, [.probe s!"since{laySuffix j} = {optNatStr (timeSinceConnected (instOf x.m j).sh)}"])
+  | "probe" :: "config" :: _ =>
+      if x.gone then (x, [.probe "config = gone"]) else
+      (x, [.probe s!"config = max:{optNatStr x.cfg.maxAttempts} retry:{if x.cfg.retry then 1 else 0} policy:{x.variant}"])
+  | "probe" :: "delay" :: _ =>
+      if x.gone then (x, [.probe "delay = gone"]) else
+      let r := delayProbe x.cfg (kv.nat "a" 0) (parseObs ws)
+      if r = "choice-not-allowed" then (x, [.raw r]) else (x, [.probe s!"delay a={kv.nat "a" 0} = {r}"])
+  | "probe" :: "pred" :: _ =>
+      if x.gone then (x, [.probe "pred = gone"]) else
+      (x, [.probe s!"pred k={kv.nat "k" 0} = {if x.cfg.reconn (kv.nat "k" 0) then 1 else 0}"])
+  | _ =>
     match parseOp ws with
     | some op =>
-        let s' := stepS cfg s op.head
-        ((cfg, s'), (s'.sh.log.drop s.sh.log.length).map REv.toEv)
-    | none => ((cfg, s), [])
-  now := fun (_, s) => s.sh.now
+        let j := match op with
+          | .poll c _ => ownerOf x.m.insts c
+          | .drop c => ownerOf x.m.insts c
+          | _ => j
+        stepOn x j op.head
+    | none => (x, [])
+
+def machine : Machine where
+  σ := MSt
+  init kv := { cfg := parseCfg kv, variant := variantOf kv, script := parseScript (kv.str "rdy" ""), recover := kv.nat "rec" 0,
+               strict := (kv.get "rdy").isSome || (kv.get "rec").isSome }
+  step := machineStep
+  now := fun x => x.m.now
 
 end TR.Reconnect
